@@ -9,6 +9,7 @@ import tiers as T
 import tierops
 import tgops
 import dispatch
+import scriptops as SC   # splitTierEntries / spellCheckEntries (DESIGN 11.8)
 
 RULE = ("every step of the histories of C05 (all tier operations), C11 (insert/delete) and C12 (all Textgrid operations in all "
         "reachable states; tier-wise edits, merge, append, align) re-run with snapshots (names, order, entries, spans) of the "
@@ -74,6 +75,8 @@ def impl(c):
         return ("c13", ("ok", None), save_frames(c))
     objs = {}
     r = dispatch.impl(c, objs)
+    if SC.is_sc(c):
+        return ("c13", r, SC.c13_problems(c, r))
     problems = []
     op = c["op"]
     spec_of = {"tier": c.get("tier"), "other": c.get("other"), "ref": c.get("ref"), "tg": c.get("tg")}
@@ -159,6 +162,8 @@ def oracle(c, r):
 
 
 def tags(c, r):
+    if SC.is_sc(c):
+        return SC.tags(c, r[1])
     out = [c["op"]]
     if c["op"] == "save":
         out += ["save:" + p[1] for p in r[2] if p[0] == "save-result"]
@@ -171,6 +176,8 @@ def tags(c, r):
 
 
 def nontrivial(c, r):
+    if SC.is_sc(c):
+        return SC.nontrivial(c, r[1])
     if c["op"] == "save":
         return True
     rr = r[1]
@@ -218,6 +225,7 @@ def save_cases(rnd, n):
 
 
 def corpus():
+    yield from SC.corpus()
     for c in fault_stream():
         c["grid"] = True
         yield c
@@ -242,6 +250,7 @@ def gen(rnd, tier):
         if c["op"] == "tg_align":
             yield c
     yield from save_cases(rnd, 4000 if big else 500)
+    yield from SC.gen(rnd, 3000 if big else 300)
 
 
 def shrink(c):
